@@ -36,8 +36,9 @@ TRUSTED_BASE = [
 ]
 ASSUMPTIONS = [
     'the step functions take already evaluated arguments: histories along which an argument is unavailable / fails, and '
-    'time-processing functions nested inside other time-processing functions, are outside the theorems (the latter is '
-    'probed and reported in coverage.nested_time_in_time, see notes/C16.md finding 2)',
+    'pausing functions whose argument itself depends on time (another time-processing function, MILLISECOND()), are outside '
+    'the theorems; the latter REFUTES the pause invariant (History/C16Nested.v) and is reported by the end-to-end oracle as '
+    'the known finding {kind: pause, position: nested-time-dependent-argument} (notes/C16.md finding 2)',
     'specification theorems: positive times, well-shaped arguments, no Python exception raised along the history; DELAY: '
     'constant delay, non-decreasing times, fewer than HISTORY_SIZE-1 pending changes; FREEZE: non-decreasing times; '
     'FMAVG/FMEDIAN: constant integer width >= 1',
@@ -636,18 +637,35 @@ def hub_compare(ctx, res, n_cases, rng):
     ex['hub_ticks_skipped_by_pause'] = ex.get('hub_ticks_skipped_by_pause', 0) + skipped_ticks
 
 
+NESTED_KEY = {'kind': 'pause', 'position': 'nested-time-dependent-argument'}
+
+
 def probe_time_in_time(res, rng):
-    """observation only (not part of the verdict): time-processing functions nested in pausing time-processing functions"""
+    """a pausing function whose ARGUMENT depends on time (another time-processing function, MILLISECOND()): gated vs.
+    every-tick evaluation through the real main.handle_value_changes.  Each differing expression is a violation of the
+    property's last sentence, keyed NESTED_KEY (a known finding, see notes/C16.md finding 2).  Real objects only: these
+    expressions never enter the model tie (the step functions take evaluated arguments)."""
     install()
     bad = []
     for text in TIME_IN_TIME:
         sig = [0] * 5 + [1] * 60
         ticks = [(T0 + 100 * i, {'p1': v}) for i, v in enumerate(sig)]
-        first = pause_differs(text, ticks)[0]
-        if first is not None:
-            bad.append({'expression': text, 'first_differing_tick': first})
+        first, a, b, _ = pause_differs(text, ticks)
+        res['evaluations'] += 2 * len(ticks)
+        if first is None:
+            continue
+        bad.append({'expression': text, 'first_differing_tick': first})
+        ticks = ticks[:first + 1]
+        res['violations'].append({
+            'key': dict(NESTED_KEY),
+            'what': 'port carrying %s (an argument that itself depends on time): evaluating only when main.handle_value_changes '
+                    'allows gives %r at tick %d, evaluating on every tick gives %r' % (text, a[first], first, b[first]),
+            'case': {'kind': 'pause', 'position': NESTED_KEY['position'], 'expression': text, 'ticks': ticks_json(ticks)},
+            'expected': [None if x is None else pyvals.describe(x) for x in b[:first + 1]],
+            'observed': [None if x is None else pyvals.describe(x) for x in a[:first + 1]],
+        })
     res['extra']['nested_time_in_time'] = {
-        'note': 'outside the modelled property (step functions take evaluated arguments); see notes/C16.md finding 2',
+        'note': 'reported as violations with key %r (known finding, notes/C16.md finding 2)' % (NESTED_KEY,),
         'probed': len(TIME_IN_TIME), 'differ': bad}
 
 
@@ -665,11 +683,14 @@ def run_corpus_case(ctx, res, j, name):
         res['evaluations'] += 2 * len(ticks)
         if first is not None:
             fname = j.get('function') or j['expression'][:j['expression'].index('(')]
+            key = {'kind': 'pause', 'function': fname, 'position': j.get('position', 'top')}
+            if j.get('position') == NESTED_KEY['position']:
+                key = dict(NESTED_KEY)
             res['violations'].append({
-                'key': {'kind': 'pause', 'function': fname, 'position': j.get('position', 'top')},
+                'key': key,
                 'what': 'corpus %s: port carrying %s gives %r at tick %d when evaluated only as main.handle_value_changes allows, '
                         '%r when evaluated on every tick' % (name, j['expression'], a[first], first, b[first]),
-                'case': {'kind': 'pause', 'expression': j['expression'], 'ticks': j['ticks']},
+                'case': {'kind': 'pause', 'position': j.get('position', 'top'), 'expression': j['expression'], 'ticks': j['ticks']},
                 'expected': [None if x is None else pyvals.describe(x) for x in b],
                 'observed': [None if x is None else pyvals.describe(x) for x in a],
             })
